@@ -25,6 +25,7 @@ in each case as `tol`.
 """
 from __future__ import annotations
 
+import functools
 import itertools
 import math
 from fractions import Fraction
@@ -226,7 +227,15 @@ def build_step(step, w, k):
     m = fx()
     case = w.case
     if 'ops' in step:
-        return m['core'].CompositionOperator(build_ops(step['ops'], w))
+        ops = build_ops(step['ops'], w)
+        via = step.get('via', 'list')
+        if via == 'list':
+            return m['core'].CompositionOperator(ops)
+        if via == 'matmul':  # ((a @ b) @ c) @ d
+            return functools.reduce(lambda acc, o: acc @ o, ops[1:], ops[0])
+        if via == 'rmatmul':  # a @ (b @ (c @ d))
+            return functools.reduce(lambda acc, o: o @ acc, reversed(ops[:-1]), ops[-1])
+        raise ValueError(via)
     jnp = m['jnp']
     dt = jnp.float64 if w.x64 else jnp.float32
     ang = None if step['ang'] is None else w.array(step.get('aid', 1), step['ang'], step.get('ak', 'jax'))
@@ -292,7 +301,7 @@ def try_reduce(op):
 def case_steps(case):
     kind = case['kind']
     if kind == 'chain':
-        return [{'ops': case['ops']}]
+        return [{'ops': case['ops'], 'via': case.get('via', 'list')}]
     if kind == 'factory':
         return [{'which': case['which'], 'ang': case['ang'], 'ak': case.get('ak', 'jax'), 'aid': 1}]
     return case['steps']
@@ -303,15 +312,23 @@ def observe_steps(case, x):
     operator is evaluated AGAIN, reduced a second time, and the first reduced operator re-evaluated."""
     w = World(case)
     steps = case_steps(case)
-    ops = [build_step(st, w, k) for k, st in enumerate(steps)]
-    ids = w.ids
+    ops = []
     res = [{} for _ in steps]
+    for k, st in enumerate(steps):
+        try:
+            ops.append(build_step(st, w, k))
+        except BaseException as e:
+            if isinstance(e, (KeyboardInterrupt, SystemExit)):
+                raise
+            ops.append(None)
+            res[k]['build_error'] = type(e).__name__
+    ids = w.ids
     for r, op in zip(res, ops):
-        r['expr'] = skeleton(op, ids)
+        r['expr'] = None if op is None else skeleton(op, ids)
         r['before'] = try_value(lambda: op.mv(x))
     reds = []
     for r, op in zip(res, ops):
-        red, err = try_reduce(op)
+        red, err = (None, 'not built') if op is None else try_reduce(op)
         reds.append(red)
         r['reduced'] = None if red is None else skeleton(red, ids)
         r['after'] = None if red is None else try_value(lambda: red.mv(x))
@@ -319,8 +336,8 @@ def observe_steps(case, x):
             r['reduce_error'] = err
     for r, op, red in zip(res, ops, reds):
         r['again'] = try_value(lambda: op.mv(x))
-        r['expr_again'] = skeleton(op, ids)
-        red2, err2 = try_reduce(op)
+        r['expr_again'] = None if op is None else skeleton(op, ids)
+        red2, err2 = (None, 'not built') if op is None else try_reduce(op)
         r['reduced2'] = None if red2 is None else skeleton(red2, ids)
         r['after2'] = None if red2 is None else try_value(lambda: red2.mv(x))
         if err2:
@@ -473,14 +490,25 @@ def dec_ops(v):
     return [dec_op(o) for o in v['a'][0]]
 
 
-def dec_step(v):
+STRUCT_KEYS = ('expr', 'expr_again', 'reduced', 'reduced2')
+ERROR_KEYS = ('reduce_error', 'reduce_error2', 'build_error')
+
+
+def dec_step(v, step):
     """(map show_op l, x_observe sh l x) -> the observation of one step; the model is pure, so every
-    repeated evaluation of the implementation is compared with the model's single value."""
+    repeated evaluation of the implementation is compared with the model's single value.  Steps built with
+    `@` (whose identity shortcuts are not in the model) are compared on their values only."""
     created, (b, r, a) = v
     e = [dec_op(o) for o in created]
     B, R, A = dec_value(b), dec_ops(r), dec_value(a)
-    return {'expr': e, 'expr_again': e, 'before': B, 'again': B, 'reduced': R, 'reduced2': R,
-            'after': A, 'after2': A, 'after1_again': A}
+    d = {'expr': e, 'expr_again': e, 'before': B, 'again': B, 'reduced': R, 'reduced2': R,
+         'after': A, 'after2': A, 'after1_again': A}
+    return strip_step(d, step)
+
+
+def strip_step(d, step):
+    drop = ERROR_KEYS + (STRUCT_KEYS if step.get('via', 'list') != 'list' else ())
+    return {k: v for k, v in d.items() if k not in drop}
 
 
 def step_ops(step):
@@ -498,7 +526,7 @@ def step_ops(step):
 
 def step_name(step):
     if 'ops' in step:
-        return 'chain ' + ','.join(d['t'] + (str(d['id']) if 'id' in d else '') + (f'[{d.get("ak", "jax")}{d.get("aid", d["id"])}]' if 'id' in d else '')
+        return {'list': 'chain ', 'matmul': 'left-nested @ product ', 'rmatmul': 'right-nested @ product '}[step.get('via', 'list')] + ','.join(d['t'] + (str(d['id']) if 'id' in d else '') + (f'[{d.get("ak", "jax")}{d.get("aid", d["id"])}]' if 'id' in d else '')
                                    for d in step['ops'])
     return f'{step["which"]}.create(angles={"None" if step["ang"] is None else step.get("ak", "jax") + str(step.get("aid", 1))})'
 
@@ -578,6 +606,8 @@ class Check(PropertyCheck):
         'classes (no identity/homothety operand; the other registered binary rules do not match these classes); '
         'registry order InverseBinary < QURotation < QURotationHWP < LinearPolarizerHWP (C01/C07 check the registry itself)',
         'correspondence harness harness/c15.py (case builders for both sides, tolerance snapping, NumPy oracle)',
+        'expressions built with `@`: the construction-time shortcuts of __matmul__ / __rmatmul__ (A.I @ A -> identity) are not in the '
+        'model; such cases are compared with the model and the NumPy reference on their VALUES (before / after reduce) only',
         'purity (no in-place update of operands): the model is a pure function, so the implementation evaluated before / after '
         'reduce(), reduced twice, and across the steps of a sequence over shared objects is compared with the ONE model value per '
         'step; that the angle operands are bitwise unchanged (NumPy arrays, caller-owned or stored in rotation objects) is an '
@@ -623,7 +653,7 @@ class Check(PropertyCheck):
             return 'py'
         return 'np' if r < 0.55 else 'jax'
 
-    def chain_case(self, pattern, stokes, shape, mode, share=0.3, x64=True, turns=False, key=None, akp='mix', alias=0.2):
+    def chain_case(self, pattern, stokes, shape, mode, share=0.3, x64=True, turns=False, key=None, akp='mix', alias=0.2, via='list'):
         """pattern: tuple over 'R','RT','H','P'; rotations draw angle arrays of random admissible shapes; with
         probability `share` a rotation reuses an earlier QURotationOperator object (same identity and angles);
         with probability `alias` a NEW rotation object is built on an earlier angle operand (same array object)."""
@@ -649,8 +679,9 @@ class Check(PropertyCheck):
                 ops.append({'t': t, 'id': oid, 'aid': aid, 'ak': ak, 'ang': ang})
             else:
                 ops.append({'t': t})
+        extra = {} if via == 'list' else {'via': via}  # built with `@` (left- / right-nested) instead of CompositionOperator([...])
         return self.mk_case('chain', stokes, shape, ops=ops, pattern=','.join(pattern), x64=x64,
-                            key=key or ('chain:' + ','.join(pattern)))
+                            key=key or ('chain:' + ','.join(pattern)), **extra)
 
     def seq_case(self, stokes, shape, mode, akp, nsteps, x64=True, key='seq'):
         """Several chains and factories over a SHARED pool: 1-3 angle operands, rotation objects built on them
@@ -679,7 +710,8 @@ class Check(PropertyCheck):
                 else:
                     oid, (aid, ak, ang) = rng.choice(rots)
                     ops.append({'t': rng.choice(('R', 'RT')), 'id': oid, 'aid': aid, 'ak': ak, 'ang': ang})
-            steps.append({'ops': ops})
+            r = rng.random()
+            steps.append({'ops': ops} if r < 0.6 else {'ops': ops, 'via': 'matmul' if r < 0.8 else 'rmatmul'})
         return self.mk_case('seq', stokes, shape, steps=steps, x64=x64, key=key)
 
     def cases(self):
@@ -725,6 +757,11 @@ class Check(PropertyCheck):
                 if not quick:
                     for _ in range(2):
                         cases.append(self.chain_case(pat, stokes, rng.choice(shapes), 'mix', share=0.5, turns=True))
+                # the same words built with `@` (identity shortcuts of __matmul__ / __rmatmul__ on construction)
+                if 2 <= len(pat) <= (3 if quick else 4):
+                    for via in ('matmul', 'rmatmul'):
+                        cases.append(self.chain_case(pat, stokes, rng.choice(shapes[1:3]), 'gen', share=0.5, via=via,
+                                                     key=f'{via}:' + ','.join(pat)))
         # same-object patterns (InverseBinaryRule, the factory shape) on every kind
         same = [
             [('RT', 1), ('R', 1)], [('R', 1), ('RT', 1)], [('R', 1), ('R', 1)], [('RT', 1), ('RT', 1)],
@@ -735,7 +772,8 @@ class Check(PropertyCheck):
         ]
         for pat in same:
             for stokes in kinds:
-                for mode, akp in (('gen', 'np'), ('axis', 'mix'), ('gen', 'jax')):
+                for mode, akp, via in (('gen', 'np', 'list'), ('axis', 'mix', 'list'), ('gen', 'jax', 'list'),
+                                       ('gen', 'mix', 'matmul'), ('gen', 'mix', 'rmatmul')):
                     shape = rng.choice(shapes[1:3])
                     angs = {}
                     ops = []
@@ -748,7 +786,9 @@ class Check(PropertyCheck):
                         else:
                             ops.append({'t': t})
                     name = ','.join(f'{t}{i or ""}' for t, i in pat)
-                    cases.append(self.mk_case('chain', stokes, shape, ops=ops, pattern=name, key='same:' + name))
+                    extra = {} if via == 'list' else {'via': via}
+                    cases.append(self.mk_case('chain', stokes, shape, ops=ops, pattern=name,
+                                              key=('same:' if via == 'list' else f'same-{via}:') + name, **extra))
         # every word of length <= 3 (quick: <= 2 on every kind, 3 on a seeded kind) with ALL operands NumPy arrays
         # (resp. Python floats), once with distinct angle operands and once with ONE operand shared by all the rotation objects
         for pat in patterns:
@@ -883,21 +923,22 @@ class Check(PropertyCheck):
             if t == 'H':
                 obs['t'] = dec_value(y)  # HWPOperator is @diagonal: .T is the operator itself
         elif kind in ('chain', 'factory'):
-            obs = dec_step(v[0])
+            obs = dec_step(v[0], case_steps(case)[0])
             obs['mutated'] = []
         else:
-            obs = {'steps': [dec_step(s) for s in v], 'mutated': []}
+            obs = {'steps': [dec_step(s, st) for s, st in zip(v, case['steps'])], 'mutated': []}
         return snap(obs, unfloat(case.get('_raw')), case['tol'])
 
     def comparable(self, case, obs):
-        def strip(d):
-            return {k: v for k, v in d.items() if k not in ('reduce_error', 'reduce_error2')}
-
-        if isinstance(obs, dict):
-            obs = strip(obs)
-            if isinstance(obs.get('steps'), list):
-                obs['steps'] = [strip(s) if isinstance(s, dict) else s for s in obs['steps']]
-        return obs
+        if not isinstance(obs, dict) or case['kind'] == 'mv':
+            return obs
+        steps = case_steps(case)
+        if case['kind'] == 'seq':
+            obs = dict(obs)
+            if isinstance(obs.get('steps'), list) and len(obs['steps']) == len(steps):
+                obs['steps'] = [strip_step(r, st) if isinstance(r, dict) else r for r, st in zip(obs['steps'], steps)]
+            return obs
+        return strip_step(obs, steps[0])
 
     def nontrivial(self, case, obs):
         if not isinstance(obs, dict):
@@ -927,7 +968,9 @@ class Check(PropertyCheck):
                 'with seeded angle arrays / shared rotation objects, plus same-object patterns, sampled longer chains, '
                 'non-composable chains; the three factories; a float32 subset.  Angle operands are given as jax arrays, NumPy '
                 'arrays (mutable) or Python floats (scalars), distinct rotation objects may hold ONE angle operand; every word of '
-                'length <= 2 (thorough <= 3) is also run with all-NumPy operands, distinct and aliased, and with Python floats.  '
+                'length <= 2 (one seeded kind for length 3; thorough: <= 3 on every kind) is also run with all-NumPy operands, '
+                'distinct and aliased, and with Python floats; every word of length 2-3 (thorough 2-4) and the same-object patterns '
+                'are also built with `@` (left- and right-nested) instead of CompositionOperator([...]).  '
                 'Sequences: 2-5 chains / factory calls over a shared pool of rotation objects and angle operands (all 16 pairs of '
                 '2-chains over two objects, chain+factory and factory+factory on one NumPy operand, plus sampled).  Every chain / '
                 'factory / sequence is observed for purity (unreduced value and stored angles before and after reduce(), reduce() twice, '
@@ -970,7 +1013,7 @@ class Check(PropertyCheck):
                     return msg
         else:
             (st,) = case_steps(case)
-            msg = self.step_oracle(step_name(st) if kind == 'factory' else 'chain ' + case.get('pattern', ''), st, o, case)
+            msg = self.step_oracle(step_name(st), st, o, case)
             if msg:
                 return msg
         if o.get('mutated'):
@@ -984,8 +1027,12 @@ class Check(PropertyCheck):
         operator, of the UNREDUCED operator, of a second reduce(), with the operands' stored angles unchanged."""
         tol = case['tol']
         ops = step_ops(step)
+        if o.get('build_error'):
+            return f'{what}: building the expression raised {o["build_error"]}'
         eexp = expected_expr(ops)
-        if not close_expr(o.get('expr'), eexp, tol):
+        if step.get('via', 'list') != 'list':
+            eexp = o.get('expr')  # `@` may simplify on construction: only self-consistency of the structure
+        elif not close_expr(o.get('expr'), eexp, tol):
             return f'{what}: built {brief(o.get("expr"))}, expected the product {brief(eexp)}'
         exp = np_expected(ops, case['stokes'], case['shape'], case['x'])
         if exp is not None:  # else not composable: values are outside the property's domain (purity is not)
